@@ -631,14 +631,12 @@ Print Assumptions C01_refuted_witnesses.
    of the real table (KeepListVec.v, KeepPkg.v), every instruction, the run loop including the
    error path, Vm::eval and the boot sequence (KeepRun.v, BootMinv.v). *)
 From MW Require Proofs.FlatProofs Proofs.FlatAll Proofs.KeepCalc Proofs.KeepCompile Proofs.KeepRun
-  Proofs.BootMinv Proofs.BootGenv Proofs.BootCorollaries.
+  Proofs.BootMinv Proofs.BootGenv Proofs.BootCorollaries Proofs.FragmentBoot.
 
 Theorem C01_J_unfold : forall s, KeepCalc.J s <->
   ginv s /\ sp s < scap s /\
   (forall cid k, tget (conts (st s)) cid = Some k -> k_sp k < len (k_stack k)).
-Proof.
-  intros s. split; [intros [G S K]; auto|intros (G & S & K); constructor; assumption].
-Qed.
+Proof. exact FragmentBoot.J_unfold. Qed.
 Print Assumptions C01_J_unfold.
 
 Theorem C01_rinv_minv : forall s, FlatProofs.finv s /\ KeepCalc.J s -> minv s.
@@ -710,10 +708,7 @@ Proof. exact BootGenv.load_builtins_ok. Qed.
 Print Assumptions C01_load_builtins_ok.
 Theorem C01_builtin_rho_unfold : forall x i, BootGenv.builtin_rho3 x = Some (R3Base (RBuiltin i)) <->
   exists e, nth_error Gen.Builtins.builtin_table (N.to_nat i) = Some e /\ fst e = x.
-Proof.
-  intros x i. rewrite <- BootGenv.builtin_index_iff. unfold BootGenv.builtin_rho3.
-  destruct (BootGenv.builtin_index x) as [j|]; split; intros H; try discriminate; [injection H as <-|injection H as <-]; reflexivity.
-Qed.
+Proof. exact FragmentBoot.builtin_rho3_unfold. Qed.
 Print Assumptions C01_builtin_rho_unfold.
 Theorem C01_load_builtins_preserves_rinv : forall s, FlatProofs.finv s /\ KeepCalc.J s ->
   match load_builtins s with
@@ -742,7 +737,7 @@ Proof. exact BootMinv.session_minv. Qed.
 Print Assumptions C01_session_minv.
 
 (* C01_eval_fragment3 on the booted machine: the premise [minv] is discharged (the same holds on
-   every state of a session: Proofs/BootCorollaries.v eval_fragment3_session, and
+   every state of a session: Proofs/BootCorollaries.v eval_fragment3_session, FragmentBoot.v eval_fragment4_session, and
    C01_eval_fragment6_session below for the largest fragment).  What remains: the reference environment rho must describe (part of) the
    machine's globals ([genv_rel3 rho s]; the empty environment always does), and the macro
    expander must leave the form alone (explicit premise, as before). *)
@@ -965,7 +960,7 @@ Theorem C01_frameL_unfold : forall L m m', StoreLocal5.frameL L m m' <->
   (forall e sl, e < next_id (st m) -> tget (envs (st m)) e = Some sl ->
      exists sl', tget (envs (st m')) e = Some sl' /\ len sl' = len sl /\
        forall k, ~ L e k -> list_get sl' k = list_get sl k).
-Proof. intros L m m'. split; [intros [F E]; split; assumption|intros [F E]; constructor; assumption]. Qed.
+Proof. exact FragmentBoot.frameL_unfold. Qed.
 Print Assumptions C01_frameL_unfold.
 
 (* non-vacuity, as model runs on the empty machine: the COUNTER without numeric builtins
@@ -1023,10 +1018,7 @@ Theorem C01_ref_eval6_store_rules : forall (bsem : N -> list rval -> option rval
      ref_evals6 bsem (ps ++ cs) (seq (length sg2) (length rs) ++ clocs) (sg2 ++ rs) rho2 bodies vs sg3 rho3 ->
      vs = pre ++ [r] ->
      ref_eval6 bsem sc lv sg rho (WApp f args) r sg3 rho3).
-Proof.
-  intros bsem. split; [exact (R6_local bsem)|]. split; [exact (R6_setl bsem)|].
-  split; [exact (R6_lam bsem)|exact (R6_app_closure bsem)].
-Qed.
+Proof. exact FragmentBoot.ref_eval6_store_rules. Qed.
 Print Assumptions C01_ref_eval6_store_rules.
 
 Theorem C01_fragment6_static : forall e sc, wf6 e sc ->
@@ -1147,10 +1139,7 @@ Theorem C01_eval_fragment6_session :
   exists n m mu', (forall fuel, (n <= fuel)%nat -> eval ob fuel (cell_of6 e) s = halt_result m) /\
     (exists more, mu' = mu ++ more) /\ vrep6 mu' m (acc m) r /\ genv_rel6 mu' rho' m /\ store_rel mu' sg' m /\
     minv m /\ cext s m /\ sp m = sp s /\ bp m = bp s /\ ep m = ep s /\ out_log m = out_log s.
-Proof.
-  intros ob bsem Hb He e mu sg rho r sg' rho' s0 s B R Hwf HR G SR Ht.
-  exact (eval_fragment6 ob bsem Hb He e mu sg rho r sg' rho' s Hwf HR (BootMinv.session_minv s0 s B R) G SR Ht).
-Qed.
+Proof. exact FragmentBoot.eval_fragment6_session. Qed.
 Print Assumptions C01_eval_fragment6_session.
 
 (* non-vacuity (a): ((lambda (n) ((lambda (u) n) (set! n #t))) #f) — set! on a parameter the
